@@ -51,6 +51,16 @@ CLAIMED = {
             "(other spellings of equal numerals in const/enum, non-core format strings, non-ASCII lengths) derive no verdict.",
             "Exhaustive over the enumerated families only; format accept/reject sets are core sets, the exact languages of net/mail, net/url, "
             "time.Parse and RE2 are not re-specified.", "3/C02"),
+    "C03": ("TLA+ denotational requirement Sem!Verdict (union over referenced types / or-members with a least-fixpoint guard, transitive allOf, "
+            "additionalProperties modes, key shortcuts judged by their string type); TLC enumerates roots x documents over a family of 19 user "
+            "types with verdict vectors; replay through jschema.Validate (mesh protocol)",
+            "Every enumerated value position (single and multiple references with and without nullable, type-rule references, or rules over "
+            "references / kinds / inline rule-sets, arrays with item bounds, property positions, 13 additionalProperties modes, six key-shortcut "
+            "objects, allOf chains and diamonds, optional recursion) is validated against every enumerated document and must give the TLC verdict; "
+            "TLC also checks on the requirement that a multi-reference position is exactly the union of its single references.",
+            "Exhaustive over the enumerated family only (<= 19 types in one environment); cells the statement leaves open (required shortcut "
+            "without a matching key, keys matching several shortcuts with disagreeing entries, integers under additionalProperties float, "
+            "non-empty containers for or-member object/array) derive no verdict.", "3/C03"),
 }
 
 PENDING_REASON = "check under construction in this session - not claimed yet (no technique switch intended; see DESIGN.md section 3)"
